@@ -469,6 +469,8 @@ class Interp:
             if isinstance(v, (tuple, list)) and len(v) == len(t.elts):
                 for te, ve in zip(t.elts, v):
                     self.assign(te, ve)
+            elif isinstance(v, (tuple, list)) and not any(isinstance(x, ast.Starred) for x in t.elts):
+                raise RaiseSignal("ValueError", t, payload="unpack length mismatch")
             else:
                 vs = self.unpack_hook(v, len(t.elts), t)
                 for te, ve in zip(t.elts, vs):
